@@ -111,6 +111,13 @@ def load_py(D, groups=None, species=None, **kw):
     """load the dataset with pyham (in-memory string transport); returns the Ham object"""
     xml = gen.orthoxml(species if species is not None else D.species, groups if groups is not None else D.groups)
     kw.setdefault('use_internal_name', D.naming == 'own')
+    phylo_dir = kw.pop('phyloxml_dir', None)
+    if phylo_dir:
+        # the same tree supplied as a PhyloXML file (names in <taxonomy><scientific_name>)
+        path = os.path.join(phylo_dir, 'tree.phyloxml')
+        with open(path, 'w') as f:
+            f.write(gen.phyloxml(D.T))
+        return pyham.Ham(tree_file=path, tree_format='phyloxml', hog_file=xml, orthoXML_as_string=True, **kw)
     return pyham.Ham(tree_file=nwk_of(D), hog_file=xml, orthoXML_as_string=True, **kw)
 
 def try_load(D, **kw):
